@@ -551,6 +551,8 @@ func ruleC09(p *Prog, r *Res) {
 		blocking := ""
 		inspectShallow(h.Body(), func(x ast.Node) bool {
 			switch s := x.(type) {
+			case *ast.GoStmt:
+				return false // `go mgr.f(…)` runs f on another goroutine: the handler itself does not block
 			case *ast.SendStmt:
 				blocking = "send at " + p.Pos(s)
 			case *ast.CallExpr:
